@@ -1,15 +1,26 @@
 #![allow(clippy::module_name_repetitions)]
 
+#[cfg(not(kani))]
 use core::hash::BuildHasherDefault;
 
+#[cfg(not(kani))]
 use rustc_hash::FxHasher;
 
+#[cfg(not(kani))]
 pub type HashMap<K, V> = hashbrown::HashMap<K, V, BuildHasherDefault<FxHasher>>;
+#[cfg(not(kani))]
 pub type HashSet<T> = hashbrown::HashSet<T, BuildHasherDefault<FxHasher>>;
+#[cfg(kani)]
+pub use crate::verif::vmap::{HashMap, HashSet};
 
 pub mod hash_map {
+    #[cfg(not(kani))]
     use hashbrown::hash_map;
 
+    #[cfg(not(kani))]
     pub type Iter<'a, K, V> = hash_map::Iter<'a, K, V>;
+    #[cfg(not(kani))]
     pub type ExtractIf<'a, K, V, F> = hash_map::ExtractIf<'a, K, V, F>;
+    #[cfg(kani)]
+    pub use crate::verif::vmap::{ExtractIf, Iter};
 }
